@@ -2,6 +2,8 @@ import Dmn.Model.Sexp
 import Dmn.Model.Lexer
 import Dmn.Model.LexerSpec
 import Dmn.Gen.BifNames
+import Dmn.Gen.NameChars
+import Dmn.Model.NameGrammar
 
 /-!
 Driver handler for C10 (and the lexer part of C05):
@@ -13,6 +15,11 @@ Driver handler for C10 (and the lexer part of C05):
 * `(c10 resolve (bound…) text)` — the specification `specResolve`: `(some name len)` / `(none)`.
 * `(c10 namenew (part…))` — `((s Name::new) (s flatten_name_parts))`.
 * `(c10 bifnames)` — the names `Bif::from_str` accepts (regenerated table `Dmn.Gen.bifNames`), each as `(s cp…)`.
+* `(c10 namechars)` — the code points at which a character class of names can change: first, last, just-before and
+  just-after code point of every range of the tables regenerated from `lexer.rs` (`Dmn.Gen.NameChars`) and of the
+  grammar's tables (`Dmn.NameGrammar`), and the ranges themselves: `((bounds c…) (start (lo hi)…) (part (lo hi)…))`.
+* `(c10 classify c…)` — per code point `(c start part symbol white mstart mpart mwhite)`: the grammar's classification
+  (`Dmn.NameGrammar`, rules 28-30, 61) and the lexer model's (`isNameStartChar`, `isNamePartChar`, `isWhitespace`).
 -/
 
 namespace Dmn.Driver.C10
@@ -81,6 +88,23 @@ def handle (args : List Sexp) : String :=
     | none => "(error bad-args)"
   | [.atom "bifnames"] =>
     toString (Sexp.list (Dmn.Gen.bifNames.map (fun p => ofCps (p.1.toList.map Char.toNat))))
+  | [.atom "namechars"] =>
+    let g := Dmn.Gen.NameChars.nameStartRanges ++ Dmn.Gen.NameChars.namePartRanges ++ Dmn.Gen.NameChars.whitespaceRanges ++
+      Dmn.Gen.NameChars.additionalSymbolRanges
+    let sp := NameGrammar.nameStartCharRanges ++ NameGrammar.namePartExtraRanges ++ NameGrammar.whiteSpaceExtraRanges ++ [(0x0A, 0x0D)]
+    let bs := (NameGrammar.boundaries (g ++ sp)).eraseDups
+    let rg (rs : List (Nat × Nat)) : List Sexp := rs.map (fun r => Sexp.list [.atom (toString r.1), .atom (toString r.2)])
+    toString (Sexp.list [Sexp.list (.atom "bounds" :: bs.map (fun c => .atom (toString c))),
+      Sexp.list (.atom "start" :: rg NameGrammar.nameStartCharRanges),
+      Sexp.list (.atom "part" :: rg (NameGrammar.nameStartCharRanges ++ NameGrammar.namePartExtraRanges))])
+  | .atom "classify" :: cs =>
+    match cs.mapM Sexp.nat? with
+    | some cs =>
+      toString (Sexp.list (cs.map (fun c => Sexp.list [.atom (toString c),
+        Sexp.ofBool (NameGrammar.nameStartChar c), Sexp.ofBool (NameGrammar.namePartChar c),
+        Sexp.ofBool (NameGrammar.additionalNameSymbol c), Sexp.ofBool (NameGrammar.whiteSpace c),
+        Sexp.ofBool (isNameStartChar c), Sexp.ofBool (isNamePartChar c), Sexp.ofBool (isWhitespace c)])))
+    | none => "(error bad-args)"
   | _ => "(error bad-request)"
 
 end Dmn.Driver.C10
